@@ -515,7 +515,12 @@ func (u *Unit) arith(st *State, op token.Token, a, b Val, rt types.Type, pos tok
 			}
 		}
 		u.d.declarePow2()
-		t = app("*", a.T, app("pow2", b.T))
+		u.safe("shift", pos, st, app("<", b.T, "64"), "shift count < 64 (a larger count shifts everything out)")
+		if a.T == "1" {
+			t = app("pow2", b.T)
+		} else {
+			t = app("*", a.T, app("pow2", b.T))
+		}
 	case token.SHR:
 		u.safe("shift", pos, st, app(">=", b.T, "0"), "shift count >= 0")
 		if isLit(b.T) {
@@ -565,16 +570,10 @@ func (u *Unit) declareBitops() {
 	ax("and", "(forall ((a Int) (b Int) (i Int)) (! (= (bit (bitand a b) i) (and (bit a i) (bit b i))) :pattern ((bit (bitand a b) i))))")
 	ax("andnot", "(forall ((a Int) (b Int) (i Int)) (! (= (bit (bitandnot a b) i) (and (bit a i) (not (bit b i)))) :pattern ((bit (bitandnot a b) i))))")
 	ax("xor", "(forall ((a Int) (b Int) (i Int)) (! (= (bit (bitxor a b) i) (xor (bit a i) (bit b i))) :pattern ((bit (bitxor a b) i))))")
-	ax("pow2", "(forall ((i Int) (j Int)) (! (=> (and (>= i 0) (>= j 0)) (= (bit (pow2 i) j) (= i j))) :pattern ((bit (pow2 i) j))))")
-	ax("one", "(forall ((i Int) (j Int)) (! (=> (and (>= i 0) (>= j 0)) (= (bit (* 1 (pow2 i)) j) (= i j))) :pattern ((bit (* 1 (pow2 i)) j))))")
+	ax("pow2", "(forall ((i Int) (j Int)) (! (=> (and (>= i 0) (< i 64) (>= j 0) (< j 64)) (= (bit (pow2 i) j) (= i j))) :pattern ((bit (pow2 i) j))))")
+	ax("and.pow2", "(forall ((a Int) (i Int)) (! (=> (and (>= i 0) (< i 64)) (= (= (bitand a (pow2 i)) 0) (not (bit a i)))) :pattern ((bitand a (pow2 i)))))")
 	ax("zero", "(forall ((i Int)) (! (not (bit 0 i)) :pattern ((bit 0 i))))")
-	ax("nonneg.or", "(forall ((a Int) (b Int)) (! (=> (and (>= a 0) (>= b 0)) (>= (bitor a b) 0)) :pattern ((bitor a b))))")
-	ax("nonneg.and", "(forall ((a Int) (b Int)) (! (=> (and (>= a 0) (>= b 0)) (>= (bitand a b) 0)) :pattern ((bitand a b))))")
-	ax("nonneg.andnot", "(forall ((a Int) (b Int)) (! (=> (and (>= a 0) (>= b 0)) (>= (bitandnot a b) 0)) :pattern ((bitandnot a b))))")
-	// extensionality on non-negative masks restricted to positions 0..63
-	ax("ext", "(forall ((a Int) (b Int)) (! (=> (and (>= a 0) (>= b 0) (< a 18446744073709551616) (< b 18446744073709551616) (forall ((i Int)) (=> (and (>= i 0) (< i 64)) (= (bit a i) (bit b i))))) (= a b)) :pattern ((biteq a b))))")
 	u.d.add("f:biteq", "(declare-fun biteq (Int Int) Bool)")
-	ax("andzero", "(forall ((a Int) (b Int)) (! (=> (and (>= a 0) (>= b 0)) (= (= (bitand a b) 0) (forall ((i Int)) (=> (and (>= i 0) (< i 64)) (not (and (bit a i) (bit b i))))))) :pattern ((bitand a b))))")
 }
 
 // equal builds the equality of two Go values (comparable types).
